@@ -139,10 +139,77 @@ def gen_cases(rng, tier):
         peers = [int(d.split(":")[0]) for d in ds]
         groups = _events_for(rng, nd, peers, long=(tier == "thorough" and i % 5 == 0))
         cases.append(_case("h%d" % i, st, ds, groups, rng.randrange(1, 10 ** 6)))
+    # whole user agents: the acceptor / invite usage claims CANCEL, BYE, PRACK ... and has to answer each of them once,
+    # also when the ACK for its INVITE answer never comes (the scripts of C12, which leave ACKs out in half of the cases)
+    import importlib
+    P12 = importlib.import_module("props.c12")
+    src = [c for c in P12.gen_cases(rng.__class__(rng.randrange(1 << 30)), "quick") if c[2] == "uas" and c[6] in ("race", "rel1xx")]
+    if tier == "quick":
+        src = [c for k, c in enumerate(src) if k % 3 == 0 or ":bye" in c[4]]
+    for k, c in enumerate(src):
+        cases.append(["ua%d" % k, "c08", "ua", c[2], c[3], c[4], c[5]])
     return cases
 
 
 # ---------------------------------------------------------------- observation -> per-request summary
+def model_case(case, impl):
+    if case[2] == "ua":
+        return [case[0], "c08", "", "-", "", "1"]        # no model run for the user-agent scenarios: decided by the oracle
+    return case
+
+
+def _ua_requests(script):
+    """the non-ACK requests a user-agent script injects: (branch, method) in script order, as harness/src/ua.rs names them"""
+    reqs = []
+    k = 0
+    for st in [x for x in script.split(",") if x]:
+        a = st.split(":")[1:]
+        if not a:
+            continue
+        ev = a[0]
+        if ev == "inv":
+            reqs.append(("z9hG4bKinvite1", "INVITE"))
+        elif ev == "cancel":
+            k += 1
+            reqs.append(("z9hG4bKother%d" % k if (len(a) > 1 and a[1] == "x") else "z9hG4bKinvite1", "CANCEL"))
+        elif ev in ("bye", "info", "update"):
+            k += 1
+            reqs.append(("z9hG4bK%s%d" % (ev, k), ev.upper()))
+        elif ev == "reinv":
+            k += 1
+            reqs.append(("z9hG4bKreinv%d" % k, "INVITE"))
+        elif ev == "prack":
+            k += 1
+            reqs.append(("z9hG4bKprack%d" % k, "PRACK"))
+        elif ev == "options":
+            k += 1
+            reqs.append(("z9hG4bKopt%d" % k, "OPTIONS"))
+        elif ev == "ack":
+            k += 1
+    return reqs
+
+
+def _ua_oracle(case, impl):
+    if "PANIC" in impl:
+        return ["panic: " + impl[-300:]]
+    finals = collections.defaultdict(list)
+    for m in re.finditer(r"W:SIP/2\.0_(\d+)_[^|]*\|cseq=(\d+)_(\w+)\|branch=([^|]*)\|\S*@(\d+)", impl):
+        if int(m.group(1)) >= 200:
+            finals[(m.group(4), m.group(3))].append(m.group(1))
+    out = []
+    script = case[5]
+    answered_by_app = any(x in script for x in (":accept", ":reject", ":cancel", ":bye"))
+    for (branch, meth) in _ua_requests(script):
+        codes = finals.get((branch, meth), [])
+        if meth == "INVITE":
+            if len(set(codes)) > 1 or (branch == "z9hG4bKinvite1" and answered_by_app and not codes):
+                out.append("INVITE %s received final responses %s, the property demands exactly one" % (branch, sorted(set(codes))))
+            continue
+        if len(codes) != 1:
+            out.append("%s %s received %d final responses %s, the property demands exactly one" % (meth, branch, len(codes), codes))
+    return out[:3]
+
+
 def _summ_impl(s):
     per = collections.OrderedDict()
     for tok in s.split("\tPANIC")[0].split():
@@ -172,6 +239,8 @@ def _summ_model(s):
 
 
 def accepts(case, impl, model):
+    if case[2] == "ua":
+        return True
     i, m = _summ_impl(impl), _summ_model(model)
     for rid in set(i) | set(m):
         a = i.get(rid, {"offers": [], "codes": [], "cseqs": set()})
@@ -258,6 +327,8 @@ def _reference(case):
 
 def oracle(case, impl):
     out = []
+    if case[2] == "ua":
+        return _ua_oracle(case, impl)
     if "PANIC" in impl:
         out.append("panic: " + impl[-300:])
         return out
@@ -307,6 +378,8 @@ def known(case, impl, violation, findings):
 
 
 def nontrivial(case, impl):
+    if case[2] == "ua":
+        return case[5] if "W:SIP/2.0_" in impl else None
     if re.search(r"L\d+:r\d+ (L|U)", impl):
         return "|".join(case[2:5])
     return None
@@ -315,6 +388,9 @@ def nontrivial(case, impl):
 def distribution(cases, impl):
     h = collections.Counter()
     for c in cases:
+        if c[2] == "ua":
+            h["user-agent scenario"] += 1
+            continue
         h["layers=%d" % len([x for x in c[2].split(";") if x])] += 1
         h["dialogs=%d" % len([x for x in c[3].split(";") if x and x != "-"])] += 1
         for g in c[4].split(","):
@@ -328,6 +404,8 @@ def distribution(cases, impl):
 
 
 def shrink_candidates(case):
+    if case[2] == "ua":
+        return []
     groups = case[4].split(",")
     out = []
     for i in range(len(groups)):
